@@ -9,7 +9,7 @@ use edp_client::framing::{FrameMode, MessageDeframer, MessageFramer};
 use serde_json::json;
 use std::pin::Pin;
 use std::task::{Context, Poll};
-use std::time::Duration;
+use std::time::{Duration, Instant};
 use tokio::io::{AsyncRead, AsyncWriteExt, ReadBuf};
 
 /// AsyncRead serving scripted chunks; returns Pending (after re-arming the waker) before a chunk
@@ -695,6 +695,116 @@ async fn read_half_part(ctx: &Ctx, rng: &mut Rng) {
     }
 }
 
+/// Delays as the third thing a transport does to a stream: silences between frames longer than the reader's timeout
+/// (a connection may be quiet for as long as it likes) directly followed by a frame that arrives in pieces with short
+/// pauses, cut in the length prefix or in the body. Every frame must be returned. Judged only when the writer's pauses
+/// inside a frame really stayed far below the timeout.
+async fn delays_part(ctx: &Ctx, rng: &mut Rng) {
+    use erltf::OwnedTerm;
+    for round in 0..ctx.pick(4usize, 80usize) {
+        if !ctx.time_left() {
+            break;
+        }
+        let Ok(listener) = tokio::net::TcpListener::bind("127.0.0.1:0").await else { return };
+        let addr = listener.local_addr().unwrap();
+        let timeout = Duration::from_millis(200);
+        let nframes = 2 + rng.below(3);
+        let mut frames: Vec<Vec<u8>> = Vec::new();
+        for i in 0..nframes {
+            let control = OwnedTerm::Tuple(vec![OwnedTerm::Integer(2), OwnedTerm::atom(""), OwnedTerm::Pid(erltf::ExternalPid::new(erltf::Atom::new("a@b"), i as u32 + 1, 0, 1))]);
+            let blen = *rng.pick(&[0usize, 40, 3000]);
+            let payload = OwnedTerm::Tuple(vec![OwnedTerm::Integer(i as i64), OwnedTerm::Binary(rng.bytes(blen))]);
+            let mut body = vec![112u8];
+            body.extend(erltf::encode(&control).unwrap());
+            body.extend(erltf::encode(&payload).unwrap());
+            let mut f = (body.len() as u32).to_be_bytes().to_vec();
+            f.extend_from_slice(&body);
+            frames.push(f);
+        }
+        // per frame: idle before it (ms), cut positions
+        let plan: Vec<(u64, Vec<usize>)> = frames.iter().map(|f| {
+            let idle = *rng.pick(&[0u64, 0, 450, 700]);
+            let cuts = match rng.below(4) {
+                0 => vec![],
+                1 => vec![1 + rng.below(3)],
+                2 => vec![4 + rng.below(f.len() - 4)],
+                _ => vec![2, 4 + rng.below(f.len() - 4)],
+            };
+            (idle, cuts)
+        }).collect();
+        // the first history is always the telling one: silence, then a frame cut in its length prefix; silence, then one cut in its body
+        let plan: Vec<(u64, Vec<usize>)> = if round == 0 { frames.iter().enumerate().map(|(i, f)| if i % 2 == 0 { (700u64, vec![2usize]) } else { (450u64, vec![4 + (f.len() - 4) / 2]) }).collect() } else { plan };
+        let (to_write, plan2) = (frames.clone(), plan.clone());
+        let writer = tokio::spawn(async move {
+            use tokio::io::AsyncWriteExt;
+            let Ok((mut sock, _)) = listener.accept().await else { return None };
+            let _ = sock.set_nodelay(true);
+            let mut worst = Duration::ZERO;
+            for (f, (idle, cuts)) in to_write.iter().zip(plan2.iter()) {
+                tokio::time::sleep(Duration::from_millis(*idle)).await;
+                let mut prev = 0usize;
+                for c in cuts.iter().chain(std::iter::once(&f.len())) {
+                    if *c <= prev {
+                        continue;
+                    }
+                    let t = Instant::now();
+                    if prev > 0 {
+                        tokio::time::sleep(Duration::from_millis(25)).await;
+                    }
+                    let _ = sock.write_all(&f[prev..*c]).await;
+                    let _ = sock.flush().await;
+                    if prev > 0 {
+                        worst = worst.max(t.elapsed());
+                    }
+                    prev = *c;
+                }
+            }
+            tokio::time::sleep(Duration::from_millis(300)).await;
+            Some(worst)
+        });
+        let Ok(stream) = tokio::net::TcpStream::connect(addr).await else { return };
+        let (mut rh, _wh) = stream.into_split();
+        let mut outcome: Vec<String> = Vec::new();
+        let mut ok = true;
+        for i in 0..nframes {
+            match tokio::time::timeout(Duration::from_secs(5), edp_client::Connection::receive_message_from_read_half(&mut rh, timeout)).await {
+                Ok(Ok((_, Some(OwnedTerm::Tuple(t))))) if t.first() == Some(&OwnedTerm::Integer(i as i64)) => outcome.push("delivered".into()),
+                Ok(Ok(_)) => {
+                    ok = false;
+                    outcome.push("another message".into());
+                    break;
+                }
+                Ok(Err(e)) => {
+                    ok = false;
+                    outcome.push(format!("error: {}", e));
+                    break;
+                }
+                Err(_) => {
+                    ok = false;
+                    outcome.push("nothing within 5 s".into());
+                    break;
+                }
+            }
+        }
+        let worst = tokio::time::timeout(Duration::from_secs(5), writer).await.ok().and_then(|r| r.ok()).flatten();
+        ctx.eval(nframes as u64);
+        ctx.class(&format!("delays/{}", plan.iter().map(|(idle, cuts)| format!("{}{}", if *idle > 200 { "idle+" } else { "" }, match cuts.len() { 0 => "whole", 1 => "2pieces", _ => "3pieces" })).collect::<Vec<_>>().join(",")));
+        match worst {
+            Some(w) if w < Duration::from_millis(120) => {
+                ctx.count("delay_histories_judged", 1);
+                if !ok {
+                    ctx.viol(
+                        "C05:frame-lost-after-a-silence",
+                        "a frame that arrived in pieces (pauses far below the reader's timeout) after a silence longer than that timeout was not returned",
+                        json!({"round": round, "reader_timeout_ms": 200, "plan": plan.iter().map(|(idle, cuts)| json!({"silence_before_ms": idle, "cut_at": cuts})).collect::<Vec<_>>(), "frame_lengths": frames.iter().map(|f| f.len()).collect::<Vec<_>>(), "outcome": outcome, "longest_pause_inside_a_frame_ms": w.as_millis() as u64}),
+                    );
+                }
+            }
+            _ => ctx.count("delay_histories_not_judged(writer_pauses_too_long)", 1),
+        }
+    }
+}
+
 /// Coalescing across the handshake / traffic boundary and across the hand-over of the read half (what
 /// `Node::connect` does): the peer writes its last handshake message and the first distribution frames in one
 /// piece; `k` messages are read through the connection, the rest from the read half taken out of it.
@@ -959,7 +1069,7 @@ async fn transport_part(ctx: &Ctx, rng: &mut Rng) {
 }
 
 pub fn run(ctx: &Ctx) {
-    ctx.rule("cases = message sequences (lengths 0,1,2,255,256,65535,65536,... in both framing modes) written by both framing functions and read back under a scripted transport (framers and deframers made for their mode, switched to it, or switched away and back; one pair carried across the handshake-to-distribution switch with frames of every size class behind it): ALL 2^(n-1) chunkings of every stream up to 11 (quick) / 15 (thorough) bytes with Pending between chunks, random cuts / 1-byte dribble / cuts around frame boundaries for long streams, over-long declared lengths (allocation measured), EOF at every offset inside a small frame and at the telling offsets inside frames of 64 KiB .. 16 MiB; the streaming writer over scripted write transports (every combination of 1..6 bytes accepted by the first two calls, fixed k bytes per call, random scripts; plain and truly vectored transports; Pending between calls) and through an in-memory pipe of every capacity 1..24 bytes against a concurrent reader; plus handshakes whose last message arrives glued to the first distribution frames, read partly through the connection and partly from the read half taken out of it; plus one transport object over its whole life (writes that fail for want of a connection, because the peer is gone or because it does not read until the write times out; close; connect to the next socket; mode switches), what each peer reads compared with the writes reported successful on that connection; plus the node's second read loop over a real loopback socket written in scripted slices; evaluations = frames read and judged; distinct = distinct (mode, frame-length classes, chunking style) combinations");
+    ctx.rule("cases = message sequences (lengths 0,1,2,255,256,65535,65536,... in both framing modes) written by both framing functions and read back under a scripted transport (framers and deframers made for their mode, switched to it, or switched away and back; one pair carried across the handshake-to-distribution switch with frames of every size class behind it): ALL 2^(n-1) chunkings of every stream up to 11 (quick) / 15 (thorough) bytes with Pending between chunks, random cuts / 1-byte dribble / cuts around frame boundaries for long streams, over-long declared lengths (allocation measured), EOF at every offset inside a small frame and at the telling offsets inside frames of 64 KiB .. 16 MiB; the streaming writer over scripted write transports (every combination of 1..6 bytes accepted by the first two calls, fixed k bytes per call, random scripts; plain and truly vectored transports; Pending between calls) and through an in-memory pipe of every capacity 1..24 bytes against a concurrent reader; plus handshakes whose last message arrives glued to the first distribution frames, read partly through the connection and partly from the read half taken out of it; plus one transport object over its whole life (writes that fail for want of a connection, because the peer is gone or because it does not read until the write times out; close; connect to the next socket; mode switches), what each peer reads compared with the writes reported successful on that connection; plus the node's second read loop over a real loopback socket written in scripted slices, and with silences longer than its timeout followed by frames in pieces; evaluations = frames read and judged; distinct = distinct (mode, frame-length classes, chunking style) combinations");
     ctx.assume("independent framing model: big-endian length prefix (2 bytes handshake, 4 bytes distribution) followed by the data");
     let rt = tokio::runtime::Builder::new_current_thread().enable_all().build().expect("runtime");
     let mut rng = Rng::derive(ctx.seed, 5, 1);
@@ -971,6 +1081,7 @@ pub fn run(ctx: &Ctx) {
             handover_part(ctx, &mut rng).await;
             transport_part(ctx, &mut rng).await;
             read_half_part(ctx, &mut rng).await;
+            delays_part(ctx, &mut rng).await;
         })
     });
     if let Err(p) = r {
